@@ -22,11 +22,11 @@ static void sort_T(const CaseCfg& c, Rng& rng, Outcome& o) {
   J w;
   w.kv("n", c.n).kv("threads", c.threads).kv("threads_used", m.threadsUsed()).kv("comparator_calls", m.totalCalls());
   if (bad != out.size())
-    o.violation("C16:sort:not-sorted", w.kv("what", "comp(out[i+1], out[i]) holds")
+    o.violation("C16:sort:not-sorted", J(w).kv("what", "comp(out[i+1], out[i]) holds")
                                            .kv("i", bad).kv("key_i", keyOf(out[bad])).kv("key_i1", keyOf(out[bad + 1])).str());
   if (!perm)
     o.violation("C16:sort:not-permutation",
-                w.kv("what", "output is not a permutation of the input").kv("first_diff_rank", diff).str());
+                J(w).kv("what", "output is not a permutation of the input").kv("first_diff_rank", diff).str());
   o.cls = (perm && bad == out.size()) ? "ok" : "bad";
   // measured: equivalent elements (under the comparator) whose relative input order was reversed -- allowed,
   // reported only to show that the oracle does not demand stability
